@@ -29,6 +29,11 @@ def child_seen(l):
 SUCCESS = {"ok", "exit0"}
 
 
+# names of the workspace directory: plain, and with characters that a shell would quote (the job directory, its lock
+# file and the script path are written into the generated Python script)
+WS_SPECIAL = ["my ws", "it's", 'q"uo$te (&)']
+
+
 def pmode(m):
     return m.split("+")[0]
 
@@ -82,7 +87,7 @@ def g_case(case):
 EMPTY = dict(done=False, failed=None, pid=False, lockfree=True, B=0, E=0, X=0)
 
 
-def oracle_history(launches):
+def oracle_history(launches, ws=None):
     """Yields (key, what, index) for every clause of the property that a launch of the history breaks."""
     before = EMPTY
     tainted = False
@@ -97,6 +102,12 @@ def oracle_history(launches):
                        {"exit0": "sys.exit(0)", "exit3": "sys.exit(3)", "raise": "an exception", "quit": "os._exit",
                         "return": "returning from the body"}.get(
                            l["mode"].split("+")[-1], "?"), ", ".join(wrote)), i)
+        # a workspace path with a space, a quote... : the runner must get the path itself
+        if ws in WS_SPECIAL and not l["fired"] and not l.get("waiter") and "Lock" not in l["pre"] and not before["done"]:
+            tainted = True
+            yield ("C10:workspace-path-with-shell-special-character", "workspace directory %r: the job process ended by itself "
+                   "(exit status %s) without taking the run lock or running the body; markers: done=%s failed=%s, pid file left: %s" % (
+                       ws, l["rc"], a["done"], a["failed"], a["pid"]), i)
         mid = l.get("mid")
         if mid and not wrote and (mid["done"] or mid["failed"] or not mid["pid"]):
             tainted = True
@@ -319,7 +330,7 @@ def run(c: Check):
               "are done; FORKING BODIES: the body forks once (os.fork; the child leaves by os._exit, sys.exit(0), sys.exit(3) or an "
               "exception, the body then returns or raises), death points from the first body line on - quick: for the os._exit "
               "child every body line after the fork x TERM/INT, every 2nd before it, every 4th line after the body; 4 points for "
-              "each other (outcome, child) pair; thorough: every line x 3 signals; FAILING NOTIFICATIONS: an unreadable entry in "
+              "each other (outcome, child) pair; thorough: every line x 3 signals; WORKSPACE PATHS: one history in four runs in a workspace directory named with a space, with a single quote, or with a double quote, a dollar, parentheses and an ampersand; FAILING NOTIFICATIONS: an unreadable entry in "
               "the job's .notifications folder makes report_eoj (last step of cleanup) raise, or the server refuses: own exits "
               "with every outcome (forking ones too) and deaths from the first body line on; non-trivial = the signal was delivered, distinct by (kind, initial directory, outcome, signal, "
               "line index / point, second signal)")
@@ -343,7 +354,7 @@ def run(c: Check):
     cases = []
     rp = json.load(open(c.replay))["replay"] if c.replay else None
     if rp and "launches" in rp:
-        cases.append(dict(kind="replay", launches=rp["launches"]))
+        cases.append(dict(kind="replay", launches=rp["launches"], ws=rp.get("ws")))
     else:  # (a replay file without a history names broken obligations: run the whole tier again)
         # reference executions: how many lines each (initial directory, outcome) executes, and which
         refs = []
@@ -381,7 +392,7 @@ def run(c: Check):
             return l
 
         for g in json.load(open(ROOT / "golden" / "c10.json")):
-            cases.append(dict(kind="golden", launches=[resolve(l) for l in g["launches"]]))
+            cases.append(dict(kind="golden", launches=[resolve(l) for l in g["launches"]], ws=g.get("ws")))
         cases.extend(fork_cases(c, refs))
         cases.extend(eoj_cases(c, refs))
         for r in refs:
@@ -411,6 +422,10 @@ def run(c: Check):
                                       + [dict(mode=r["mode"], sig=sig, n=n)] + relaunches(c.rng, c.quick)))
         cases.extend(double_cases(c, refs))
         cases.extend(twice_cases(c, refs))
+        # one history in four lives in a workspace whose name needs quoting
+        for x in cases:
+            if x["kind"] not in ("ref", "golden") and c.rng.random() < 0.25:
+                x["ws"] = c.rng.choice(WS_SPECIAL)
     todo = [x for x in cases if "ans" not in x]
     ans = run_impl("drive_c10.py", dict(scratch=str(scratch / "sweep"), cases=todo), timeout=1500 if c.quick else 7000)
     for x, a in zip(todo, ans):
@@ -464,6 +479,7 @@ def run(c: Check):
                 c.count("double-launch:" + ("both-die" if l["fired"] else "holder-ends-by-itself:" + l["mode"]))
                 c.nontrivial.add(("double", x.get("prefix"), l["mode"], w["sig"], w.get("n") or "ext", l["sig"] if l["fired"] else None))
         c.count("launches-per-history=%d" % len(x["ans"]))
+        c.count("workspace-directory:" + ("plain" if x.get("ws") not in WS_SPECIAL else repr(x["ws"])))
         if x["kind"] in ("sweep", "fork", "eoj"):
             sw = x["ans"][len(PREFIXES[x["prefix"]])]
             c.count("initial:" + x["prefix"])
@@ -471,11 +487,11 @@ def run(c: Check):
                 c.nontrivial.add((x["prefix"], x["mode"], sw["sig"], sw["n"]))
             if x["kind"] == "fork" and sw["fired"]:
                 c.count("forking-body:%s:%s-%s" % (x["mode"], sw["sig"], "after-the-fork" if "Fork" in sw["pre"] else "before-the-fork"))
-        for key, what, i in oracle_history(x["ans"]):
+        for key, what, i in oracle_history(x["ans"], x.get("ws")):
             if key not in best or i < best[key][2]:
                 best[key] = (what, x, i)
     for key, (what, x, i) in sorted(best.items()):
-        c.violation(key, what, dict(launches=x["launches"][:i + 1], failing_launch=i,
+        c.violation(key, what, dict(launches=x["launches"][:i + 1], ws=x.get("ws"), failing_launch=i,
                                     observed=[seen(l) for l in x["ans"][:i + 1]]))
     c.samples = ([dict(launches=x["launches"], observed=[seen(l) for l in x["ans"]]) for x in cases if x["kind"] == "sweep"][:3]
                  + [dict(launches=x["launches"], observed=[seen(l) for l in x["ans"]]) for x in cases if x["kind"] == "double"][:3])
